@@ -413,6 +413,43 @@ func run(c *core.Ctx) {
 		}
 		pool <- w
 	}
+	// Scaled family (beyond the <=4-node enumeration): long literals reach the packer's state limit
+	// (one uint64 row holds 6 bits for each of at most 10 states). For n = 1..12: the literal of
+	// length n over "ababab…", the same with its last character under +, and both next to a
+	// lower-priority [ab]+ rule; inputs around the literal.
+	{
+		w := <-pool
+		famSets := 0
+		for n := 1; n <= 12; n++ {
+			var lits []*rxref.Node
+			text := ""
+			for i := 0; i < n; i++ {
+				ch := rune("ab"[i%2])
+				lits = append(lits, rxref.Lit(ch))
+				text += string(ch)
+			}
+			plain := rxref.Cat(lits...)
+			plusLast := rxref.Cat(append(append([]*rxref.Node{}, lits[:n-1]...), rxref.Rep(lits[n-1], 1, -1))...)
+			if n == 1 {
+				plain, plusLast = lits[0], rxref.Rep(lits[0], 1, -1)
+			}
+			last := text[n-1:]
+			ins := []string{"", text, text + "b", text + "a", text + last, text + last + last, text[:n-1], text + "\x80", text + " "}
+			any := rxref.Rep(rxref.Class(false, [2]rune{'a', 'b'}), 1, -1)
+			for _, ast := range []*rxref.Node{plain, plusLast} {
+				for _, rules := range [][]ruleSpec{
+					{{Pattern: w.text(ast), AST: ast}},
+					{{Pattern: w.text(ast), AST: ast, Prio: 1}, {Pattern: w.text(any), AST: any}},
+				} {
+					w.checkRuleSet(rules, ins, report)
+					famSets++
+				}
+			}
+		}
+		w.st.addTo(c)
+		pool <- w
+		c.Set("long_literal_family_rule_sets", famSets)
+	}
 	var levelInfo []string
 	stopped := false
 	for _, lv := range levels(c.Quick()) {
